@@ -536,6 +536,9 @@ func TestVerifC20(t *testing.T) {
 		emitBuild(fmt.Sprintf("c20-build-rand-%d", i), ifs, rb.Bool(), []string{"stream:build-random", fmt.Sprintf("ifaces:%d", len(ifs))})
 	}
 
+	if os.Getenv("VERIF_C20_SECTION") == "build" {
+		return // C10 runs the BuildTasks wiring only (every interface task, monitors included, is subscribed to its link)
+	}
 	// ---- Serve: two tasks of every pair of classes x signal kind x signal placement
 	places := []string{"before-all", "between", "after", "same-instant-as-first-end"}
 	for ai, a := range c20Classes {
